@@ -3,6 +3,7 @@ package main
 // Rules added after the second round of independently seeded changes.
 
 import (
+	"sort"
 	"fmt"
 	"go/ast"
 	"go/token"
@@ -607,4 +608,397 @@ func errorsNotSwallowed(c *Check, a *Anchors) {
 
 func isErrorType(t types.Type) bool {
 	return t != nil && types.Identical(t, types.Universe.Lookup("error").Type())
+}
+
+// recursionReviewed (C07 / C16): every recursion in Task's own code has a reviewed bound.
+var recursionBounds = map[string]string{
+	"internal/flags.(*flagsOption).ApplyToExecutor <-> task.(*Executor).Options": "Options dispatches to each option's ApplyToExecutor; the flags option re-enters Options with a literal list of With* options, none of which is the flags option itself",
+}
+
+func recursionReviewed(c *Check, a *Anchors, rule string) {
+	c.Rule(rule, "every recursive cycle of Task's own code — a strongly connected component of the static call graph (interface calls resolved to every implementing method, function values by reference) or a function literal that calls the variable it is stored in — is in the reviewed table with the measure that bounds it (call-count gate, acyclic include graph, depth of a finite value, ancestor set); a new recursion is reported: cyclic Taskfiles must end with an error, never hang or exhaust memory")
+	// graph over declared functions
+	var nodes []*FuncBody
+	for _, fb := range c.P.Bodies() {
+		if fb.Decl != nil && strings.HasPrefix(fb.Pkg.PkgPath, Mod) && !bceSkipPkgs[fb.Pkg.PkgPath] {
+			nodes = append(nodes, fb)
+		}
+	}
+	succ := map[*FuncBody][]*FuncBody{}
+	for _, n := range nodes {
+		succ[n] = c.P.staticCallees(n, true)
+	}
+	// Tarjan
+	index, low := map[*FuncBody]int{}, map[*FuncBody]int{}
+	on := map[*FuncBody]bool{}
+	var stack []*FuncBody
+	var sccs [][]*FuncBody
+	idx := 0
+	var strong func(v *FuncBody)
+	strong = func(v *FuncBody) {
+		idx++
+		index[v], low[v] = idx, idx
+		stack = append(stack, v)
+		on[v] = true
+		for _, w := range succ[v] {
+			if _, ok := succ[w]; !ok {
+				continue
+			}
+			if index[w] == 0 {
+				strong(w)
+				if low[w] < low[v] {
+					low[v] = low[w]
+				}
+			} else if on[w] && index[w] < low[v] {
+				low[v] = index[w]
+			}
+		}
+		if low[v] == index[v] {
+			var comp []*FuncBody
+			for {
+				w := stack[len(stack)-1]
+				stack = stack[:len(stack)-1]
+				on[w] = false
+				comp = append(comp, w)
+				if w == v {
+					break
+				}
+			}
+			self := false
+			for _, w := range succ[v] {
+				if w == v {
+					self = true
+				}
+			}
+			if len(comp) > 1 || self {
+				sccs = append(sccs, comp)
+			}
+		}
+	}
+	for _, n := range nodes {
+		if index[n] == 0 {
+			strong(n)
+		}
+	}
+	n := 0
+	for _, comp := range sccs {
+		var names []string
+		for _, f := range comp {
+			names = append(names, fnDisplay(f))
+		}
+		sort.Strings(names)
+		key := strings.Join(names, " <-> ")
+		n++
+		c.Fn(comp[0])
+		reason, ok := recursionBounds[key]
+		if !ok {
+			ok, reason = sccBounded(c, a, comp)
+		}
+		c.Decide(ok, rule, "cycle{"+key+"}", comp[0].Body.Pos(), "bounded: "+reason,
+			"these functions call each other recursively and the cycle is not in the reviewed table of bounded recursions: on a cyclic or self-referential Taskfile nothing stops the recursion (hang, stack overflow or memory exhaustion instead of a diagnosed error)")
+	}
+	// recursive closures
+	for _, fb := range nodes {
+		info := fb.Info()
+		inspectDeep(fb.Body, func(nd ast.Node) bool {
+			as, ok := nd.(*ast.AssignStmt)
+			if !ok || len(as.Lhs) != 1 || len(as.Rhs) != 1 {
+				return true
+			}
+			lit, ok := ast.Unparen(as.Rhs[0]).(*ast.FuncLit)
+			if !ok {
+				return true
+			}
+			v := varOf(info, as.Lhs[0])
+			if v == nil {
+				return true
+			}
+			rec := false
+			ast.Inspect(lit.Body, func(m ast.Node) bool {
+				if call, ok := m.(*ast.CallExpr); ok && varOf(info, call.Fun) == v {
+					rec = true
+				}
+				return true
+			})
+			if !rec {
+				return true
+			}
+			n++
+			c.Fn(fb)
+			key := "closure " + v.Name() + "@" + fnDisplay(fb)
+			ok2, reason := closureBounded(info, fb, lit, v)
+			if !ok2 {
+				ok2, reason = closureDescends(info, lit, v)
+			}
+			if r, listed := recursionBounds[key]; listed {
+				ok2, reason = true, r
+			}
+			c.Decide(ok2, rule, key, lit.Pos(), "bounded: "+reason,
+				"the function literal stored in `"+v.Name()+"` calls itself and neither carries a visited/ancestor set that it tests before descending nor is in the reviewed table: a Taskfile whose tasks reference each other cyclically makes it recurse without bound")
+			return true
+		})
+	}
+	c.Floor(rule, n, 4)
+}
+
+// sccBounded recognises the bounded shapes of recursion between declared functions.
+func sccBounded(c *Check, a *Anchors, comp []*FuncBody) (bool, string) {
+	in := map[*FuncBody]bool{}
+	for _, f := range comp {
+		in[f] = true
+	}
+	// (1) the run-phase cycle: every cycle through RunTask passes its call-count gate (rule recursion-gated)
+	if in[a.RunTask] {
+		// every other member must re-enter the cycle only through RunTask: remove RunTask and the rest must be acyclic
+		rest := map[*FuncBody]bool{}
+		for f := range in {
+			if f != a.RunTask {
+				rest[f] = true
+			}
+		}
+		if !hasCycle(c, rest) {
+			return true, "every cycle of this component passes through RunTask, whose call-count gate (rule recursion-gated) ends it after MaximumTaskCall activations per task"
+		}
+		return false, ""
+	}
+	// (2) nil-receiver initialisation: Set calls the constructor only under `recv == nil`, the constructor calls Set on the fresh object
+	if len(comp) == 2 {
+		for i, f := range comp {
+			g := comp[1-i]
+			if f.Decl == nil || f.Decl.Recv == nil || len(f.Decl.Recv.List[0].Names) == 0 {
+				continue
+			}
+			info := f.Info()
+			recv, _ := info.Defs[f.Decl.Recv.List[0].Names[0]].(*types.Var)
+			all, cnt := true, 0
+			pm := parentMap(f.Body)
+			for _, call := range callsIn(f, true) {
+				if !a.is(callee(info, call), g) {
+					continue
+				}
+				cnt++
+				guarded := false
+				for p := pm[call]; p != nil; p = pm[p] {
+					if ifs, ok := p.(*ast.IfStmt); ok && within(call, ifs.Body) {
+						if be, ok := ast.Unparen(ifs.Cond).(*ast.BinaryExpr); ok && be.Op == token.EQL && varOf(info, be.X) == recv && isNilLit(info, be.Y) {
+							guarded = true
+						}
+					}
+				}
+				if !guarded {
+					all = false
+				}
+			}
+			if cnt > 0 && all {
+				return true, "the constructor is called only for a nil receiver and returns a non-nil object, whose Set does not call it again"
+			}
+		}
+	}
+	// (3) self-recursion over a graph with a visited set: AddVertex reports ErrVertexAlreadyExists and the function returns before recursing
+	if len(comp) == 1 {
+		f := comp[0]
+		info := f.Info()
+		guardEnd := token.NoPos
+		inspectBody(f.Body, func(nd ast.Node) bool {
+			ifs, ok := nd.(*ast.IfStmt)
+			if !ok || ifs.Init == nil || !hasJump(ifs.Body) {
+				return true
+			}
+			as, ok := ifs.Init.(*ast.AssignStmt)
+			if !ok || len(as.Rhs) != 1 {
+				return true
+			}
+			call, ok := ast.Unparen(as.Rhs[0]).(*ast.CallExpr)
+			if !ok {
+				return true
+			}
+			if fn, ok := callee(info, call).(*types.Func); !ok || fn.Name() != "AddVertex" {
+				return true
+			}
+			if strings.Contains(exprStr(ifs.Cond), "ErrVertexAlreadyExists") {
+				guardEnd = ifs.End()
+			}
+			return true
+		})
+		firstRec := token.NoPos
+		for _, call := range callsIn(f, true) {
+			if a.is(callee(info, call), f) && firstRec == token.NoPos {
+				firstRec = call.Pos()
+			}
+		}
+		if guardEnd != token.NoPos && guardEnd < firstRec {
+			return true, "each activation first adds its vertex to the include graph and returns when the vertex already exists: one activation per distinct Taskfile location"
+		}
+	}
+	return false, ""
+}
+
+func hasCycle(c *Check, set map[*FuncBody]bool) bool {
+	state := map[*FuncBody]int{}
+	var visit func(f *FuncBody) bool
+	visit = func(f *FuncBody) bool {
+		state[f] = 1
+		for _, w := range c.P.staticCallees(f, true) {
+			if !set[w] {
+				continue
+			}
+			if state[w] == 1 || (state[w] == 0 && visit(w)) {
+				return true
+			}
+		}
+		state[f] = 2
+		return false
+	}
+	for f := range set {
+		if state[f] == 0 && visit(f) {
+			return true
+		}
+	}
+	return false
+}
+
+// closureDescends recognises structural descent: every recursive call passes a strict component of one of the literal's own
+// parameters (reflect.Value.Elem/Field/Index/MapIndex, errors.Unwrap), possibly through one local variable.
+func closureDescends(info *types.Info, lit *ast.FuncLit, self *types.Var) (bool, string) {
+	params := map[*types.Var]bool{}
+	for _, fld := range lit.Type.Params.List {
+		for _, id := range fld.Names {
+			if v, ok := info.Defs[id].(*types.Var); ok {
+				params[v] = true
+			}
+		}
+	}
+	var component func(e ast.Expr, depth int) bool
+	component = func(e ast.Expr, depth int) bool {
+		e = ast.Unparen(e)
+		if call, ok := e.(*ast.CallExpr); ok {
+			if sel, ok := ast.Unparen(call.Fun).(*ast.SelectorExpr); ok {
+				switch sel.Sel.Name {
+				case "Elem", "Field", "Index", "MapIndex":
+					if v := varOf(info, sel.X); v != nil && params[v] && isReflectValue(info, sel.X) {
+						return true
+					}
+				case "Unwrap":
+					if len(call.Args) == 1 {
+						if v := varOf(info, call.Args[0]); v != nil && params[v] {
+							return true
+						}
+					}
+				}
+			}
+			return false
+		}
+		if v := varOf(info, e); v != nil && depth > 0 && !params[v] {
+			defs := defsOf(info, lit.Body, v)
+			if len(defs) == 0 {
+				return false
+			}
+			for _, d := range defs {
+				if !component(d, depth-1) {
+					return false
+				}
+			}
+			return true
+		}
+		return false
+	}
+	calls, ok := 0, true
+	ast.Inspect(lit.Body, func(m ast.Node) bool {
+		call, isCall := m.(*ast.CallExpr)
+		if !isCall || varOf(info, call.Fun) != self {
+			return true
+		}
+		calls++
+		descends := false
+		for _, arg := range call.Args {
+			if component(arg, 1) {
+				descends = true
+			}
+		}
+		if !descends {
+			ok = false
+		}
+		return true
+	})
+	if calls > 0 && ok {
+		return true, "structural descent: every recursive call passes a strict component (Elem / Field / Index / MapIndex / Unwrap) of the literal's own parameter, a finite acyclic value"
+	}
+	return false, ""
+}
+
+// closureBounded recognises the ancestor/visited-set idiom: the literal tests membership of a key in a map declared outside
+// it, returns on the found edge, and stores the key before recursing.
+func closureBounded(info *types.Info, fb *FuncBody, lit *ast.FuncLit, self *types.Var) (bool, string) {
+	var guard *types.Var
+	for _, st := range lit.Body.List {
+		ifs, ok := st.(*ast.IfStmt)
+		if !ok {
+			continue
+		}
+		cond := ast.Unparen(ifs.Cond)
+		var ix *ast.IndexExpr
+		if i, ok := cond.(*ast.IndexExpr); ok {
+			ix = i
+		}
+		if ifs.Init != nil {
+			if as, ok := ifs.Init.(*ast.AssignStmt); ok && len(as.Rhs) == 1 {
+				if i, ok := ast.Unparen(as.Rhs[0]).(*ast.IndexExpr); ok {
+					ix = i
+				}
+			}
+		}
+		if ix == nil || !hasJump(ifs.Body) {
+			continue
+		}
+		m := varOf(info, ix.X)
+		if m == nil {
+			continue
+		}
+		if _, isMap := m.Type().Underlying().(*types.Map); !isMap {
+			continue
+		}
+		if within(identDecl(info, fb, m), lit) {
+			continue // a map local to one activation guards nothing
+		}
+		guard = m
+	}
+	if guard == nil {
+		return false, ""
+	}
+	stored, storedBefore := false, false
+	firstRec := token.NoPos
+	ast.Inspect(lit.Body, func(m ast.Node) bool {
+		if call, ok := m.(*ast.CallExpr); ok && varOf(info, call.Fun) == self && firstRec == token.NoPos {
+			firstRec = call.Pos()
+		}
+		return true
+	})
+	ast.Inspect(lit.Body, func(m ast.Node) bool {
+		if as, ok := m.(*ast.AssignStmt); ok {
+			for _, l := range as.Lhs {
+				if ix, ok := ast.Unparen(l).(*ast.IndexExpr); ok && varOf(info, ix.X) == guard {
+					stored = true
+					if as.Pos() < firstRec {
+						storedBefore = true
+					}
+				}
+			}
+		}
+		return true
+	})
+	if stored && storedBefore {
+		return true, "ancestor / visited set `" + guard.Name() + "` tested before descending and extended before the recursive call"
+	}
+	return false, ""
+}
+
+func identDecl(info *types.Info, fb *FuncBody, v *types.Var) ast.Node {
+	var out ast.Node
+	inspectDeep(fb.Body, func(nd ast.Node) bool {
+		if id, ok := nd.(*ast.Ident); ok && info.Defs[id] == v {
+			out = id
+		}
+		return true
+	})
+	return out
 }
